@@ -239,13 +239,18 @@ Definition recv_data (t : trx) (octets : list Z) : trx * bool :=
   | _ => (t, false)
   end.
 
-(* the partition done under the queue lock *)
+(* the partition done under the queue lock: frame numbers are compared modulo the hyperframe
+   ('delta = (msg.fn - fn) % GSM_HYPERFRAME': 0 = due, less than half a hyperframe = ahead, otherwise behind) *)
+Definition fn_delta (mfn fn : Z) : Z := (mfn - fn) mod gsm_hyperframe.
+Definition is_due (fn : Z) (m : txmsg) : bool := fn_delta (oz (t_fn m)) fn =? 0.
+Definition is_ahead (fn : Z) (m : txmsg) : bool := negb (fn_delta (oz (t_fn m)) fn =? 0) && (fn_delta (oz (t_fn m)) fn <? gsm_hyperframe / 2).
+Definition is_behind (fn : Z) (m : txmsg) : bool := negb (fn_delta (oz (t_fn m)) fn =? 0) && negb (fn_delta (oz (t_fn m)) fn <? gsm_hyperframe / 2).
 Fixpoint part (fn : Z) (q : list txmsg) : list txmsg * list txmsg * list txmsg :=   (* (drop, emit, wait) *)
   match q with
   | [] => ([], [], [])
   | m :: r => let '(d, e, w) := part fn r in
-              let f := oz (t_fn m) in
-              if f <? fn then (m :: d, e, w) else if f =? fn then (d, m :: e, w) else (d, e, m :: w)
+              let dl := fn_delta (oz (t_fn m)) fn in
+              if dl =? 0 then (d, m :: e, w) else if dl <? gsm_hyperframe / 2 then (d, e, m :: w) else (m :: d, e, w)
   end.
 
 Record tick_out := { o_deliv : list (nat * nat * delivery);   (* (src, dst, delivery) in emission order *)
